@@ -23,6 +23,7 @@ import (
 	"strconv"
 	"strings"
 
+	"github.com/php-any/origami/std/php/core"
 	"github.com/php-any/origami/utils/vshim"
 
 	"verif/engine/pool"
@@ -675,7 +676,13 @@ func evalScript(cs []container, wants func(kind string) [][]entry, stats map[str
 	// ascending and again with every one descending, so a route that walks a Go map fails
 	// deterministically instead of once in a while.
 	for _, dir := range []int{0, 1} {
-		fails, o = evalScriptDir(cs, wants, stats, dir)
+		var ranged bool
+		fails, o, ranged = evalScriptDir(cs, wants, stats, dir)
+		if dir == 0 && !ranged && len(fails) == 0 {
+			// no Go map of two or more entries was ranged over: the descending run would be the same run
+			stats["scripts-without-a-map-range"]++
+			return
+		}
 		if len(fails) > 0 {
 			if dir == 1 {
 				for i := range fails {
@@ -688,12 +695,20 @@ func evalScript(cs []container, wants func(kind string) [][]entry, stats map[str
 	return
 }
 
-func evalScriptDir(cs []container, wants func(kind string) [][]entry, stats map[string]int, dir int) (fails []histFailure, o obsv) {
-	vshim.OnIter = func(n int, site string) int { return dir }
+func evalScriptDir(cs []container, wants func(kind string) [][]entry, stats map[string]int, dir int) (fails []histFailure, o obsv, ranged bool) {
+	vshim.OnIter = func(n int, site string) int {
+		if n >= 2 {
+			ranged = true
+		}
+		return dir
+	}
+	// a pool program run earlier in this worker process may have left set_time_limit's process-global
+	// deadline behind (itself a residue, but one that only a wall clock shows): it must not kill this script
+	core.SetExecutionDeadline(0)
 	o = observe(histScript(cs))
 	vshim.OnIter = nil
 	if o.Kind != "ok" || !strings.Contains(o.Out, "end|end|end") {
-		return []histFailure{{Kind: "script", Birth: "-", Route: "script-error", Why: "the generated script did not run to its end", Got: o.String()}}, o
+		return []histFailure{{Kind: "script", Birth: "-", Route: "script-error", Why: "the generated script did not run to its end", Got: o.String()}}, o, ranged
 	}
 	main, stdout := o.Out, ""
 	if i := strings.Index(o.Out, "\n--stdout--\n"); i >= 0 {
@@ -798,7 +813,7 @@ func evalScriptDir(cs []container, wants func(kind string) [][]entry, stats map[
 		}
 		fails = append(fails, best...)
 	}
-	return fails, o
+	return fails, o, ranged
 }
 
 func wantsFor(h []hop, as assign) func(kind string) [][]entry {
@@ -822,10 +837,31 @@ func histWorker(w *pool.W, arg json.RawMessage) {
 	stats := map[string]int{}
 	var n int64
 	reported := map[string]bool{}
-	idx := 0
+	// shards are contiguous blocks of the canonical enumeration: the extensions of one prefix sit
+	// next to each other, so the verdict on a prefix is computed once per block
+	total := 0
+	eachHistory(spec.Len, 4, func(h []hop) { total++ })
+	lo, hi := spec.Shard*total/spec.Of, (spec.Shard+1)*total/spec.Of
+	idx := -1
+	curPrefix, prefixFailed := "", map[string]map[string]bool{}
+	prefixFails := func(h []hop, a assign, kind, birth string) bool {
+		if hs := histString(h); hs != curPrefix {
+			curPrefix, prefixFailed = hs, map[string]map[string]bool{}
+		}
+		failed, ok := prefixFailed[a.Name]
+		if !ok {
+			failed = map[string]bool{}
+			fs, _, _ := evalHistory(h, a, map[string]int{})
+			for _, f := range fs {
+				failed[f.Kind+"/"+f.Birth] = true
+			}
+			prefixFailed[a.Name] = failed
+		}
+		return failed[kind+"/"+birth]
+	}
 	eachHistory(spec.Len, 4, func(h []hop) {
 		idx++
-		if idx%spec.Of != spec.Shard {
+		if idx < lo || idx >= hi {
 			return
 		}
 		for ai, a := range assigns {
@@ -870,16 +906,6 @@ func emitStats(w *pool.W, n int64, stats map[string]int) {
 		st[k] = stats[k]
 	}
 	w.Emit(rec{Kind: "count", N: n, Stats: st})
-}
-
-func prefixFails(h []hop, a assign, kind, birth string) bool {
-	fs, _, _ := evalHistory(h, a, map[string]int{})
-	for _, f := range fs {
-		if f.Kind == kind && f.Birth == birth {
-			return true
-		}
-	}
-	return false
 }
 
 // rawFail is what a worker reports: the class of the failure and the first case of its shard that
